@@ -618,20 +618,19 @@ def _hutch_worker(task):
                                       f"raised {bad['exc']}: {bad['msg']}", replay=rp))
                 continue
             est = tot / N
+            fails = {}
             for part, orc, val in (("re", o_re, est.real), ("im", o_im, est.imag)):
                 if orc is None:
                     continue
                 exact = np.array(orc["diag"], dtype=np.float64)
                 var = np.array(orc["vrad" if rand == "rademacher" else "vnorm"], dtype=np.float64)
-                at = {"routine": "hutch_diag", "k": k, "rand": rand, "op": opid, "matrix": nm_re if part == "re" else nm_im}
+                mat = nm_re if part == "re" else nm_im
                 for p in range(len(exact)):
                     if var[p] == 0:
                         cnt["exact"] += 1
                         if val[p] != exact[p]:
-                            viol.append(Violation(
-                                PROP, "rademacher_exact" if rand == "rademacher" else "bias",
-                                f"hutch_diag {opid} k={k} {rand} entry {p}", at,
-                                f"zero-variance entry: estimate {val[p]!r} != exact {exact[p]!r} ({part})", replay=rp))
+                            fails.setdefault(("rademacher_exact" if rand == "rademacher" else "bias", mat), []).append(
+                                f"entry {p}: zero-variance, estimate {val[p]!r} != exact {exact[p]!r}")
                     else:
                         cnt["stat"] += 1
                         se = np.sqrt(var[p] / N)
@@ -639,10 +638,13 @@ def _hutch_worker(task):
                         if np.isfinite(z):
                             cnt["zmax"] = max(cnt["zmax"], float(z))
                         if not z <= 6.0:
-                            viol.append(Violation(
-                                PROP, "bias", f"hutch_diag {opid} k={k} {rand} entry {p}", at,
-                                f"pooled estimate {val[p]:.6g} vs exact {exact[p]:.6g}: z = {z:.2f} > 6 "
-                                f"(se {se:.3g}, {N} probes over {len(keys)} keys) ({part})", replay=rp))
+                            fails.setdefault(("bias", mat), []).append(
+                                f"entry {p}: pooled estimate {val[p]:.6g} vs exact {exact[p]:.6g}, z = {z:.2f} > 6 (se {se:.3g})")
+            for (clause, mat), lst in fails.items():
+                viol.append(Violation(PROP, clause, f"hutch_diag {opid} k={k} {rand}",
+                                      {"routine": "hutch_diag", "k": k, "rand": rand, "op": opid, "matrix": mat},
+                                      f"{len(lst)} entr(y/ies) off ({N} probes over {len(keys)} keys): " + "; ".join(lst[:4]),
+                                      replay=rp))
             if len(samples) < 1 and k == 1:
                 samples.append(f"hutch {opid} k={k} {rand}: pooled {np.round(est, 3).tolist()} vs "
                                f"{o_re['diag']} ({N} probes)")
@@ -712,18 +714,27 @@ def hutch_part(tier, wd, viol, cov):
         verd = {v["tid"]: v for v in tres.json_lines()}
         if len(verd) != len(runs):
             raise tla.TLCError(f"Trace_Hutch judged {len(verd)} of {len(runs)} runs")
+        cagg = {}
         for r in runs:
             v = verd[r["tid"]]
             if v["st"] == "acc":
                 continue
             clause = {"cap": "cap", "key_chain": "key_chain", "divisor": "divisor"}.get(v["why"], "control")
             f = r["tid"].split("|")
-            viol.append(Violation(PROP, clause, "hutch control " + r["tid"],
-                                  {"routine": "hutch_diag", "op": f[0], "k": int(f[1][2:]), "rand": f[2], "why": v["why"]},
-                                  f"control trace rejected at event {v['at']} ({v['why']}); iterations so far {v['iters']}, "
-                                  f"max_iters {r['maxit']}", replay={"kind": "hutch_control", "tid": r["tid"]}))
+            ent = cagg.setdefault((clause, f[0], f[2]), [0, r, v])
+            ent[0] += 1
+        for (clause, opid, rand), (n_rej, r, v) in sorted(cagg.items()):
+            f = r["tid"].split("|")
+            viol.append(Violation(PROP, clause, f"hutch control {opid} {rand}",
+                                  {"routine": "hutch_diag", "op": opid, "k": int(f[1][2:]), "rand": rand, "why": v["why"]},
+                                  f"{n_rej} control trace(s) rejected, e.g. {r['tid']} at event {v['at']} ({v['why']}); "
+                                  f"iterations so far {v['iters']}, max_iters {r['maxit']}",
+                                  replay={"kind": "hutch_control", "tid": r["tid"]}))
         # negative controls: drop a next_key event / inflate the divisor / one iteration beyond the cap
-        base = next(r for r in runs if len(r["ev"]) >= 5)
+        base = {"tid": "neg:base", "n": 3, "bs": 3, "maxit": 3, "key0": "5",      # hand-made, independent of the code
+                "ev": [{"e": "nk", "i": "5", "o": "77"}, {"e": "rn", "key": "77", "rows": 3, "cols": 3},
+                       {"e": "nk", "i": "77", "o": "4000000000"}, {"e": "rn", "key": "4000000000", "rows": 3, "cols": 3},
+                       {"e": "done", "iters": 2, "div": 6}]}
         b1 = json.loads(json.dumps(base))
         b1["tid"] = "neg:key_chain"
         b1["ev"] = [e for i, e in enumerate(b1["ev"]) if i != 2]
@@ -733,16 +744,19 @@ def hutch_part(tier, wd, viol, cov):
         b3 = json.loads(json.dumps(base))
         b3["tid"] = "neg:cap"
         b3["maxit"] = b3["ev"][-1]["iters"] - 1
+        b0 = json.loads(json.dumps(base))
         negs = [b1, b2, b3]
         npath = os.path.join(wd, "hutch_neg.ndjson")
         with open(npath, "w") as fh:
-            for r in negs:
+            for r in negs + [b0]:
                 fh.write(json.dumps(r) + "\n")
         os.environ["TRACE_FILE"] = npath
         nres = tla.run_tlc("Trace_Hutch", "SPECIFICATION Spec\nINVARIANT Verdict\n", wd, workers=1)
         nv = {v["tid"]: v for v in nres.json_lines()}
         rejected = sum(1 for r in negs if nv.get(r["tid"], {}).get("st") == "rej"
                        and nv[r["tid"]]["why"] == r["tid"].split(":")[1])
+        if nv.get("neg:base", {}).get("st") != "acc":
+            common.machinery_failure(PROP, f"Trace_Hutch rejects the well-formed control run: {nv.get('neg:base')}")
         if rejected != len(negs):
             common.machinery_failure(PROP, f"Trace_Hutch negative controls: {rejected} of {len(negs)} rejected: {nv}")
     finally:
